@@ -123,6 +123,21 @@ def eval_case(c):
         n2 = np.array([cx.semi_a2orbital_motion(float(v), Mh, mt) for v in a1])
         if ulps(n1, n2) > 16:
             V('twin-semi_a2orbital_motion', f'twins differ by {ulps(n1,n2):.1f} ulp')
+        # compiled converters with a caller-supplied gravitational constant (non-dimensional / cgs use): inverse pair and Kepler III with that constant
+        for Gx in (1.0, 6.6743e-8, 4 * math.pi ** 2, float(10 ** rng.uniform(-15, 3))):
+            nn = 10 ** rng.uniform(-9, -2, 25)
+            ax = np.array([cx.orbital_motion2semi_a(float(v), Mh, mt, Gx) for v in nn])
+            nb = np.array([cx.semi_a2orbital_motion(float(v), Mh, mt, Gx) for v in ax])
+            cnt['relations'] += 2 * len(nn)
+            u1, u2 = ulps(nb, nn), ulps(nn ** 2 * ax ** 3, Gx * (Mh + mt) * np.ones_like(nn))
+            worst[f'compiled-G_to_use={Gx:.3g}'] = max(u1, u2)
+            if u1 > 32:
+                V('inverse-kepler-G_to_use', f'compiled semi_a2orbital_motion(orbital_motion2semi_a(n, G_to_use={Gx!r}), G_to_use={Gx!r}) differs from n by {u1:.3g} ulp')
+            if u2 > 64:
+                V('kepler-third-law-G_to_use', f'compiled orbital_motion2semi_a with G_to_use={Gx!r}: n^2 a^3 differs from G_to_use (M+m) by {u2:.3g} ulp')
+            nd = np.array([cx.semi_a2orbital_motion(float(v), Mh, mt, Gx) for v in ax[:5]]) ** 2 * ax[:5] ** 3
+            if ulps(nd, Gx * (Mh + mt) * np.ones(5)) > 64:
+                V('kepler-third-law-G_to_use', f'compiled semi_a2orbital_motion with G_to_use={Gx!r}: n^2 a^3 differs from G_to_use (M+m) by {ulps(nd, Gx * (Mh + mt) * np.ones(5)):.3g} ulp')
         # scalar vs array (interpreted)
         for f in ('rads2days', 'days2rads', 'sec2myr', 'myr2sec', 'm2Au', 'Au2m'):
             arr = getattr(cp, f)(x[:20])
